@@ -2,8 +2,10 @@
 """mkprompts.py <round> <hintfile> [props...] - write /tmp/seedprompts/Cnn.prompt<round> for the seeded rounds:
 template + property text + flavour hint + the ideas already used for that property (from seeded/*/meta.json)."""
 import glob, json, os, sys
-rnd, hintfile = sys.argv[1], sys.argv[2]
-props = sys.argv[3:] or ["C%02d" % i for i in range(1, 21)]
+args = [a for a in sys.argv[1:] if a != "--relatives"]
+relatives = "--relatives" in sys.argv  # the earlier ideas are offered as starting points, not excluded
+rnd, hintfile = args[0], args[1]
+props = args[2:] or ["C%02d" % i for i in range(1, 21)]
 here = os.path.dirname(os.path.abspath(__file__))
 sp = os.path.join(here, "seedprompts")
 out = "/tmp/seedprompts"
@@ -14,13 +16,18 @@ for p in props:
     text = open(os.path.join(sp, p + ".txt")).read().strip()
     used = []
     for m in sorted(glob.glob(os.path.join(here, "..", "seeded", p + "-*", "meta.json"))):
-        b = json.load(open(m)).get("breaks", "")
-        if b:
+        mj = json.load(open(m))
+        b = mj.get("breaks", "")
+        if b and relatives:
+            used.append("  - " + b[:200] + " [needed to manifest: " + mj.get("needs_to_manifest", "")[:200] + "]")
+        elif b:
             used.append("  - " + b[:160])
     wt = "/tmp/wt%s-%s" % (rnd, p)
     s = tmpl.replace("WORKTREE", wt).replace("PROPID", p)
     extra = "\n\nAdditional guidance for this attempt: " + hint
-    if used:
+    if used and relatives:
+        extra += " The changes planted earlier for this property were:\n" + "\n".join(used) + "\n"
+    elif used:
         extra += " To keep this attempt different from earlier ones, do NOT use any of the following ideas, which have been used already for this property:\n" + "\n".join(used) + "\n"
     s = s.replace("PROPTEXT", text + extra + "\n")
     open(os.path.join(out, "%s.prompt%s" % (p, rnd)), "w").write(s)
